@@ -14,6 +14,57 @@ theorem service_translated_pinned :
     Irismod.Gen.PureService.translated = ["AddEarnedFee_taxAmount_1(coin,taxRate)",
      "Slash_slashedAmt_1(depositAmt,slashFraction)"] := rfl
 
+/-- every rejecting guard (an `if` ending in the return of an error, or in a panic) of the translated functions and of
+the handlers around them, as source text in source order: removing, weakening or reordering one breaks this -/
+theorem service_guards_pinned : Irismod.Gen.PureService.guards =
+    ["AddEarnedFee: err := k.bankKeeper.SendCoinsFromModuleToModule(ctx, types.RequestAccName, k.feeCollectorName, taxCoins); err != nil",
+     "AddEarnedFee: hasNeg",
+     "Slash: hasNeg",
+     "Slash: err := k.bankKeeper.SendCoinsFromModuleToModule(ctx, types.DepositAccName, k.feeCollectorName, slashedCoins); err != nil",
+     "Keeper.WithdrawEarnedFees: !owner.Equals(providerOwner)",
+     "Keeper.WithdrawEarnedFees: !found",
+     "Keeper.WithdrawEarnedFees: !found",
+     "Keeper.AddServiceBinding: _, found := k.GetServiceDefinition(ctx, serviceName); !found",
+     "Keeper.AddServiceBinding: _, found := k.GetServiceBinding(ctx, serviceName, provider); found",
+     "Keeper.AddServiceBinding: found && !owner.Equals(currentOwner)",
+     "Keeper.AddServiceBinding: err := k.validateDeposit(ctx, deposit); err != nil",
+     "Keeper.AddServiceBinding: qos > uint64(maxReqTimeout)",
+     "Keeper.AddServiceBinding: err := types.ValidateOptions(options); err != nil",
+     "Keeper.AddServiceBinding: parsedPricing, err := k.ParsePricing(ctx, pricing); err != nil",
+     "Keeper.AddServiceBinding: minDeposit, err := k.GetMinDeposit(ctx, parsedPricing); err != nil",
+     "Keeper.AddServiceBinding: !deposit.IsAllGTE(minDeposit)",
+     "Keeper.AddServiceBinding: err := k.bankKeeper.SendCoinsFromAccountToModule(ctx, owner, types.DepositAccName, deposit); err != nil",
+     "Keeper.UpdateServiceBinding: !found",
+     "Keeper.UpdateServiceBinding: bindingOwner, err := sdk.AccAddressFromBech32(binding.Owner); err != nil",
+     "Keeper.UpdateServiceBinding: !owner.Equals(bindingOwner)",
+     "Keeper.UpdateServiceBinding: qos > uint64(maxReqTimeout)",
+     "Keeper.UpdateServiceBinding: err := k.validateDeposit(ctx, deposit); err != nil",
+     "Keeper.UpdateServiceBinding: parsedPricing, err = k.ParsePricing(ctx, pricing); err != nil",
+     "Keeper.UpdateServiceBinding: err := types.ValidateOptions(options); err != nil",
+     "Keeper.UpdateServiceBinding: minDeposit, err := k.GetMinDeposit(ctx, parsedPricing); err != nil",
+     "Keeper.UpdateServiceBinding: !binding.Deposit.IsAllGTE(minDeposit)",
+     "Keeper.UpdateServiceBinding: err := k.bankKeeper.SendCoinsFromAccountToModule(ctx, owner, types.DepositAccName, deposit); err != nil",
+     "Keeper.DisableServiceBinding: !found",
+     "Keeper.DisableServiceBinding: bindingOwner, err := sdk.AccAddressFromBech32(binding.Owner); err != nil",
+     "Keeper.DisableServiceBinding: !owner.Equals(bindingOwner)",
+     "Keeper.DisableServiceBinding: !binding.Available",
+     "Keeper.EnableServiceBinding: !found",
+     "Keeper.EnableServiceBinding: bindingOwner, err := sdk.AccAddressFromBech32(binding.Owner); err != nil",
+     "Keeper.EnableServiceBinding: !owner.Equals(bindingOwner)",
+     "Keeper.EnableServiceBinding: binding.Available",
+     "Keeper.EnableServiceBinding: err := k.validateDeposit(ctx, deposit); err != nil",
+     "Keeper.EnableServiceBinding: minDeposit, err := k.GetMinDeposit(ctx, k.GetPricing(ctx, serviceName, provider)); err != nil",
+     "Keeper.EnableServiceBinding: !binding.Deposit.IsAllGTE(minDeposit)",
+     "Keeper.EnableServiceBinding: err := k.bankKeeper.SendCoinsFromAccountToModule( ctx, owner, types.DepositAccName, deposit, ); err != nil",
+     "Keeper.RefundDeposit: !found",
+     "Keeper.RefundDeposit: bindingOwner, err := sdk.AccAddressFromBech32(binding.Owner); err != nil",
+     "Keeper.RefundDeposit: !owner.Equals(bindingOwner)",
+     "Keeper.RefundDeposit: binding.Available",
+     "Keeper.RefundDeposit: binding.Deposit.IsZero()",
+     "Keeper.RefundDeposit: currentTime.Before(refundableTime)",
+     "Keeper.RefundDeposit: err := k.bankKeeper.SendCoinsFromModuleToAccount( ctx, types.DepositAccName, bindingOwner, binding.Deposit, ); err != nil",
+     "Keeper.validateDeposit: len(deposit) != 1 || deposit[0].Denom != baseDenom"] := rfl
+
 /-- `LegacyNewDecFromInt(n).Mul(r).TruncateInt()` with the library's range checks, on a non-negative amount and
 rate: the service model's `mulTrunc` whenever the two checks pass (they do for every amount below 2^196 and rate ≤ 1:
 the model carries no range check at this site) -/
